@@ -13,7 +13,7 @@ Responder.start(status, headers)
                        a second start without exc_info -> AssertionError; returns the write callable; marks started
 Responder.reset(environ, chunkable)
                        every per-response field is back to its initial value and chunkable is the new request's
-Responder.build()      chunked  <=>  chunkable and (no Transfer-Encoding header or it is 'chunked'), and then the header is set
+Responder.build()      chunked  <=>  chunkable and no declared length and (no Transfer-Encoding header or it is 'chunked'), and then the header is set
 Server.serviceReps()   (<= 2 connections) a connection is closed iff its responder was closed, or its response ended for a
                        non-persistent request and everything was flushed (txbs empty); a persistent ended request gets a
                        fresh parser exactly when it has none; a responder that has not ended is serviced exactly once
@@ -190,7 +190,9 @@ def responder_start(B):
         B.prove("no-length-only-without-content-length-header", z3.Not(has_cl0), top=True)
     else:
         B.prove("length-is-the-declared-content-length", z3.And(has_cl0, z(st["length"], "int") == toint(z(hict.val["content-length"]))), top=True)
-        B.prove("no-chunking-with-a-declared-length", "self.chunkable is False", top=True)
+    # (whether the response is chunked is decided in build() from .chunkable AND .length, so that a later start_response with
+    #  exc_info and no Content-Length can still be chunked: start leaves the capability of the request alone)
+    B.prove("chunking-capability-of-the-request-untouched", _eq(ctx, st["chunkable"], st0["chunkable"]), top=True)
     B.prove("nothing-sent-by-start", not [e for e in log if e[0] == "tx"], top=True)
 
 
@@ -370,15 +372,16 @@ def responder_build(B):
     B.prog.text_models["encode"] = lambda c, s, a, k: c.fresh("bytes", "encoded")
 
     has_te0, te0 = z(hict.has["transfer-encoding"]), z(hict.val["transfer-encoding"])
-    self = B.obj(RESP, hint="responder", incomer=B.ext(Incomer(log)), iterator=None, status=B.of("str", "status"), headers=href, chunked=False)
+    declared = B.int("declared-length") if B.choice(False, True, label="content-length-declared") else None
+    self = B.obj(RESP, hint="responder", incomer=B.ext(Incomer(log)), iterator=None, status=B.of("str", "status"), headers=href, chunked=False, length=declared)
     chunkable = z(ctx.st(self)["chunkable"])
     r = B.call(self, qual=RESP + ".build")
     B.no_other_exception()
     if not B.returned():
         return
     st = ctx.st(self)
-    want = z3.And(chunkable, z3.Or(z3.Not(has_te0), te0 == z3.StringVal("chunked")))
-    B.prove("chunked-iff-chunkable-and-no-other-transfer-encoding", z(st["chunked"]) == want, top=True)
+    want = z3.And(chunkable, z3.BoolVal(declared is None), z3.Or(z3.Not(has_te0), te0 == z3.StringVal("chunked")))
+    B.prove("chunked-iff-chunkable-and-no-declared-length-and-no-other-transfer-encoding", z(st["chunked"]) == want, top=True)
     announced = [v for k, v in hict.sets if k == "transfer-encoding"]
     if announced:
         B.prove("announced-transfer-encoding-is-chunked", _eq(ctx, announced[-1], "chunked"), top=True)
